@@ -502,7 +502,9 @@ func runProviderScenario(cfg Config, sc Scenario, probe bool) (fail *Failure) {
 			if err := r.settle(n); err != nil { // the event stream has passed it to the provider's event child
 				return bad(i, err.Error())
 			}
-			time.Sleep(5 * time.Millisecond) // child -> provider hop
+			// event stream -> the provider's event child -> the provider: the report has to be handled before the next input
+			// is issued (nothing observable tells when a report that changes nothing has arrived)
+			quietBarrier(n.e, "provider/"+n.name)
 		}
 		// the provider's own list (it answers every handshake with its complete member list) ...
 		var ids []string
